@@ -51,12 +51,12 @@ var c11TT [3]int64
 const c11Start = 1347442203 // osm.CommitInfoStart
 
 type c11Child struct {
-	ver, cs        int64
-	vis            bool
-	ts             int64
-	commit         int64
-	hasCommit      bool
-	lat, lon       int64
+	ver, cs   int64
+	vis       bool
+	ts        int64
+	commit    int64
+	hasCommit bool
+	lat, lon  int64
 }
 
 type c11Ref struct {
